@@ -1608,6 +1608,43 @@ impl<K: Hash + Eq, V, RH: BuildHasher, FH: BuildHasher, GH: BuildHasher> fmt::De
     }
 }
 
+// ---------------------------------------------------------------------------
+// Verification hooks (cargo feature `verif-hooks`, off by default).
+// ---------------------------------------------------------------------------
+#[cfg(feature = "verif-hooks")]
+impl<K: Hash + Eq, V, RH: BuildHasher, FH: BuildHasher, GH: BuildHasher>
+    TwoQueueCache<K, V, RH, FH, GH>
+{
+    /// Read-only view of `(recent, frequent, ghost)`.
+    #[doc(hidden)]
+    #[allow(clippy::type_complexity)]
+    pub fn verif_lists(
+        &self,
+    ) -> (
+        &RawLRU<K, V, DefaultEvictCallback, RH>,
+        &RawLRU<K, V, DefaultEvictCallback, FH>,
+        &RawLRU<K, V, DefaultEvictCallback, GH>,
+    ) {
+        (&self.recent, &self.frequent, &self.ghost)
+    }
+
+    /// The recent-queue quota computed at construction.
+    #[doc(hidden)]
+    pub fn verif_recent_quota(&self) -> usize {
+        self.recent_size
+    }
+
+    /// Forces a re-hash of the index of list `which` (0 = recent, 1 = frequent, 2 = ghost).
+    #[doc(hidden)]
+    pub fn verif_rehash(&mut self, which: usize) {
+        match which {
+            0 => self.recent.verif_rehash(),
+            1 => self.frequent.verif_rehash(),
+            _ => self.ghost.verif_rehash(),
+        }
+    }
+}
+
 #[cfg(test)]
 mod test {
     use crate::lru::two_queue::TwoQueueCache;
